@@ -71,7 +71,7 @@ IDENTITY_CALLS = re.compile(
     r'(^|::)(Borrow|BorrowMut|AsRef|Into|From|Deref|DerefMut)::(borrow|borrow_mut|as_ref|into|from|deref|deref_mut)$|'
     r'(Deref|DerefMut)>::deref(_mut)?$|Borrow<.*>>::borrow$|BorrowMut<.*>>::borrow_mut$|RefCell::<.*>::borrow(_mut)?$|'
     r'AsRef<.*>>::as_ref$|Into<.*>>::into$|From<.*>>::from$|String::as_str$|Option::<.*>::as_ref$|'
-    r'IntoIterator>::into_iter$|Rc::<.*>::new$|RefCell::<.*>::new$|Cell::<.*>::new$|Box::<.*>::new$|Option::<.*>::as_deref$')
+    r'IntoIterator>::into_iter$|core::hint::must_use$|Rc::<.*>::new$|RefCell::<.*>::new$|Cell::<.*>::new$|Box::<.*>::new$|Option::<.*>::as_deref$')
 VALUE_CALLS = re.compile(r'::clone$|ToOwned>::to_owned$|ToString>::to_string$|::to_string$|Option::<.*>::(cloned|copied)$')
 
 
